@@ -10,6 +10,9 @@ drawn, only getters are called.  Events are appended to the worker's trace:
   ["c05tcov", day, method, k, outcome]                      every Emission.check_temporal_cov call
   ["c05rep",  day, method, site, level, mdl, site_true, site_measured,
               [[eqg, comp | None, true, measured], ...], ret]   after every Default*LevelSensor.detect_emissions
+  ["c05done", day, method, site, complete, in_progress, site_true, site_measured]
+              after every Method.survey_site call (for component-scale methods: after the sensor, before the tags):
+              the state of the survey report the method goes on to act upon
 k is a serial number of the emission object (stable for the run of one program/simulation).
 
 If the configuration carries "c05_prior_files" (parameter files of another, already materialised
@@ -151,3 +154,21 @@ def install(job):
 
     for cls in (DefaultComponentLevelSensor, DefaultEquipmentGroupLevelSensor, DefaultSiteLevelSensor):
         wrap_detect(cls)
+
+    from programs.method import Method
+
+    orig_survey = Method.survey_site
+
+    @functools.wraps(orig_survey)
+    def survey_site(self, crew, survey_report, site_to_survey, weather, curr_date):
+        out = orig_survey(self, crew=crew, survey_report=survey_report, site_to_survey=site_to_survey,
+                          weather=weather, curr_date=curr_date)
+        try:
+            EVENTS.append(["c05done", di(curr_date), self._name, str(site_to_survey.get_id()),
+                           bool(survey_report.survey_complete), bool(survey_report.survey_in_progress),
+                           float(survey_report.site_true_rate), float(survey_report.site_measured_rate)])
+        except Exception as e:
+            EVENTS.append(["c05-error", repr(e)])
+        return out
+
+    Method.survey_site = survey_site
